@@ -131,6 +131,8 @@ class Backend:
             return None
         if op == "delete_graph":
             return self.pg(g).delete_graph()
+        if op == "delete_all_graphs":
+            return self.importer.delete_all_graphs()
         if op == "clone":
             r = self.pg(g).clone_graph(new_graph_id=a[0])
             assert r.graph_id == a[0]
@@ -334,17 +336,36 @@ def gen_props(rng, keys, lo=0):
     return {k: gen_val(rng) for k in rng.sample(keys, rng.randint(lo, min(3, len(keys))))}
 
 
-def gen_op(rng, gids, nids, kinds=None, pnames=None, merge=False, direct=True):
-    """one request; `pnames` = property names usable in updates (GraphID is never among them: re-homing a node
-    is outside C04/C05's quantifier)"""
+KEY_VALS = ["g1", "g2", "g3", "n1", "n2", "zz", None, 7, ["g1", "g2"]]
+
+
+def gen_key_val(rng, k, gids, nids):
+    """a value for a GraphID / NodeID rewrite: mostly another graph's / node's id, sometimes anything"""
+    if rng.random() < 0.8:
+        return rng.choice(gids if k == GRAPH_ID else nids)
+    import copy
+    return copy.deepcopy(rng.choice(KEY_VALS))
+
+
+def gen_op(rng, gids, nids, kinds=None, pnames=None, merge=False, direct=True, keys=0.0, delall=0.0):
+    """one request; `pnames` = property names usable in updates.  `keys` = probability that an update / the
+    initial properties of a node / a merge policy names GraphID or NodeID (re-homing, re-keying);
+    `delall` = probability of importer.delete_all_graphs() instead of the drawn operation"""
     pn = pnames or (["Name", "Type", CLASS, NODE_ID] + FREE + FREE)
     g = rng.choice(gids)
     op = rng.choice(kinds or (MUTATORS * 2 + QUERIES + (["merge_nodes"] * 3 if merge else [])
                               + (["add_graph_direct"] if direct else [])))
+    if delall and rng.random() < delall:
+        return ["delete_all_graphs", "*"]
     nid = lambda: rng.choice(nids)  # noqa
-    upd = [k for k in pn if k != NODE_ID]       # NodeID is only ever *unset* (refused), never rewritten
+    upd = [k for k in pn if k != NODE_ID]       # NodeID / GraphID are rewritten only when `keys` asks for it
+    kw = keys and rng.random() < keys
+    kk = rng.choice([GRAPH_ID, NODE_ID]) if kw else None
     if op == "add_node":
         p = None if rng.random() < 0.4 else gen_props(rng, ["Name", "Type"] + FREE)
+        if kw:
+            p = dict(p or {})
+            p[kk] = gen_key_val(rng, kk, gids, nids)
         return [op, g, nid(), rng.choice(CLASSES), p]
     if op == "delete_node":
         return [op, g, nid()]
@@ -352,13 +373,21 @@ def gen_op(rng, gids, nids, kinds=None, pnames=None, merge=False, direct=True):
         p = None if rng.random() < 0.5 else gen_props(rng, FREE + ["Name"] + ([CLASS] if rng.random() < 0.1 else []))
         return [op, g, nid(), rng.choice(RELS), nid(), p]
     if op == "update_node_property":
+        if kw:
+            v = gen_key_val(rng, kk, gids, nids)
+            return [op, g, nid(), kk, v]
         return [op, g, nid(), rng.choice(upd), gen_val(rng, 0.25)]
     if op == "unset_node_property":
         return [op, g, nid(), rng.choice(pn + [GRAPH_ID])]
     if op == "update_nodes_property":
+        if kw:
+            return [op, g, kk, gen_key_val(rng, kk, gids, nids)]
         return [op, g, rng.choice(upd), gen_val(rng, 0.25)]
     if op == "update_node_properties":
-        return [op, g, nid(), gen_props(rng, upd, 0)]
+        p = gen_props(rng, upd, 0)
+        if kw:
+            p[kk] = gen_key_val(rng, kk, gids, nids)
+        return [op, g, nid(), p]
     if op == "update_link_property":
         return [op, g, nid(), nid(), rng.choice(RELS), rng.choice(upd), gen_val(rng, 0.25)]
     if op == "unset_link_property":
@@ -373,13 +402,23 @@ def gen_op(rng, gids, nids, kinds=None, pnames=None, merge=False, direct=True):
         ig = gen_igraph(rng, nids, g=g, direct=True)
         if not ig["nodes"]:
             ig["nodes"].append({NODE_ID: nid(), GRAPH_ID: g, CLASS: rng.choice(CLASSES)})
+        if kw:      # a direct import trusts the ids on the nodes: one of them names another graph (or nothing)
+            a = rng.choice(ig["nodes"])
+            if rng.random() < 0.7:
+                a[GRAPH_ID] = rng.choice(gids)
+            else:
+                a.pop(GRAPH_ID, None)
         return [op, g, ig]
     if op == "clone":
         return [op, g, rng.choice(gids)]
     if op == "merge_nodes":
-        g2 = rng.choice([x for x in gids if x != g])
+        # now and then a graph is asked to merge a node with itself (other_graph = the caller's own graph)
+        g2 = g if rng.random() < 0.08 else rng.choice([x for x in gids if x != g])
         pol = None if rng.random() < 0.3 else {k: rng.choice(["discard", "overwrite", "combine", "combine", "weird"])
                                                for k in rng.sample(["Name", "Type"] + FREE, rng.randint(0, 3))}
+        if kw:
+            pol = dict(pol or {})
+            pol[kk] = rng.choice(["discard", "overwrite", "combine", "weird"])
         return [op, g, nid(), g2, pol]
     if op == "get_node_properties":
         return [op, g, nid()]
@@ -440,9 +479,12 @@ class Shadow:
             if op != "get_link_properties" and rng.random() < 0.85:
                 req[4] = rel
         elif op in NODE_OPS and self.nodes and rng.random() < 0.6:
+            selfm = op == "merge_nodes" and req[3] == req[1]
             g, x = rng.choice(self.nodes)
             req[1], req[2] = g, x
-            if op == "merge_nodes":
+            if selfm:
+                req[3] = g
+            elif op == "merge_nodes":
                 req[3] = rng.choice([y for y in gids if y != g])
                 both = [(ga, xa, gb) for ga, xa in self.nodes for gb, xb in self.nodes if xa == xb and ga != gb]
                 if both and rng.random() < 0.8:
@@ -468,6 +510,49 @@ def gen_history(rng, length, ngraphs=3, nnodes=4, **kw):
 
 def target_of(req):
     return req[2] if req[0] == "clone" else req[1]
+
+
+def affected(req):
+    """graph ids whose content the request may change (twin of Store.Op.affects): its target, every GraphID value it
+    writes, the second graph of a merge; None = every graph (delete_all_graphs)"""
+    op = req[0]
+    if op == "delete_all_graphs":
+        return None
+    out = {target_of(req)}
+    w = []
+    if op == "add_node" and req[4]:
+        w = [req[4].get(GRAPH_ID)]
+    elif op == "update_node_property" and req[3] == GRAPH_ID:
+        w = [req[4]]
+    elif op == "update_nodes_property" and req[2] == GRAPH_ID:
+        w = [req[3]]
+    elif op == "update_node_properties":
+        w = [req[3].get(GRAPH_ID)]
+    elif op == "add_graph_direct":
+        w = [a.get(GRAPH_ID) for a in req[2]["nodes"]]
+    elif op == "merge_nodes":
+        out.add(req[3])
+    out |= {v for v in w if isinstance(v, str)}
+    return out
+
+
+def writes_keys(req):
+    """does the request name GraphID / NodeID in what it writes (twin of not Op.keepsKeys, imports aside)"""
+    op = req[0]
+    K = (GRAPH_ID, NODE_ID)
+    if op == "add_node":
+        return bool(req[4]) and any(k in req[4] for k in K)
+    if op == "update_node_property":
+        return req[3] in K
+    if op == "update_nodes_property":
+        return req[2] in K
+    if op == "update_node_properties":
+        return any(k in req[3] for k in K)
+    if op == "merge_nodes":
+        return bool(req[4]) and any(req[4].get(k, "discard") != "discard" for k in K)
+    if op == "add_graph_direct":
+        return any(a.get(GRAPH_ID) != req[1] for a in req[2]["nodes"])
+    return False
 
 
 def kind_seq(h):
